@@ -24,7 +24,7 @@ def pipe(text, technique, design):
 
 
 CLAIMED.update({
-    "C01": pipe("Theorems: a VOk verdict of the in-Coq comparison means equal names and equal rows (sequence when the pipeline fixes the order, multiset otherwise) w.r.t. ONE reference semantics evaluated on the real resolved AST of each backend; hence both backends agree. SQL compile correctness (sql_compile_correct): for every database and every AST of the single-SELECT fragment (flat_ok: source, select, rename, element-wise mutate / filter, mutate with window / aggregate functions incl. partition_by and arrange=, group_by, one summarize with HAVING-filters and mutates after it, one arrange, slice_head chains, unions and inner joins of such pipelines) the SELECT denoted by the transcription of SqlImpl.compile_ast returns exactly the reference table; Polars compile correctness (polars_compile_correct) for the transcription of the Polars compile_ast incl. rename_overwritten_cols; backends_agree: on the common fragment the SQL statement and the Polars plan denote the same table for all data. Tie: L1 on typed random pipelines over all verbs (joins, unions, windows, aggregates, all data shapes incl. tall tables with long null prefixes) on Polars and SQLite + L2 metadata traces + L3 (Model/SqlCompile.compile = real SqlImpl.compile_ast: Query record, labels, scope; Model/PlCompile.pl_compile = real Polars compile_ast: select, partition_by, name_in_df, schema; on every single-source case; share of cases inside the fragments reported). PARTIAL: outside the fragments (full joins, subquery markers; for SQL also several arranges, filters after an arrange) equality of the backends is decided per case by L1.",
+    "C01": pipe("Theorems: a VOk verdict of the in-Coq comparison means equal names and equal rows (sequence when the pipeline fixes the order, multiset otherwise) w.r.t. ONE reference semantics evaluated on the real resolved AST of each backend; hence both backends agree. SQL compile correctness (sql_compile_correct): for every database and every AST of the single-SELECT fragment (flat_ok: source, select, rename, element-wise mutate / filter, mutate with window / aggregate functions incl. partition_by and arrange=, group_by, one summarize with HAVING-filters and mutates after it, one arrange, slice_head chains, unions and inner joins of such pipelines) the SELECT denoted by the transcription of SqlImpl.compile_ast returns exactly the reference table; Polars compile correctness (polars_compile_correct) for the transcription of the Polars compile_ast incl. rename_overwritten_cols; backends_agree: on the common fragment the SQL statement and the Polars plan denote the same table for all data. Tie: L1 on typed random pipelines over all verbs (joins, unions, windows, aggregates, all data shapes incl. tall tables with long null prefixes) on Polars and SQLite + L2 metadata traces + L3 (Model/SqlCompile.compile = real SqlImpl.compile_ast: Query record, labels, scope; Model/PlCompile.pl_compile = real Polars compile_ast: select, partition_by, name_in_df, schema; on every single-source case; share of cases inside the fragments reported). PARTIAL: outside the fragments (subquery markers, joins with computed columns on a padded side; for SQL also several arranges, filters after an arrange) equality of the backends is decided per case by L1.",
                 "Rocq: reference semantics + comparison soundness theorems; differential correspondence of both backends against the reference evaluated by vm_compute", "5 / C01"),
     "C02": pipe("Theorems (all tables, all expressions): select/drop only hide, rename only renames, mutate is simultaneous and keeps overwritten columns readable through their uid, filter keeps exactly the true rows in order, slice_head spec and the chain law, group_by/ungroup/alias change no data. Tie: L1 on row-verb pipelines on both backends.",
                 "Rocq: theorems on the reference semantics of the row verbs (induction over definitions, firstn/skipn algebra); differential correspondence", "5 / C02"),
@@ -32,7 +32,7 @@ CLAIMED.update({
                 "Rocq: aggregate laws on the reference semantics; differential correspondence", "5 / C04"),
     "C05": pipe("Theorems: arrange is a permutation; the stable insertion sort is sorted, stable (ties keep the previous order) and commutes with filter, for any total transitive order; null placement is decided by the marker alone; descending reverses non-null order; window mutate keeps the rows; congruence of eval (a window value depends on the rows only); inlining of definitions preserves every expression form (subst_rel); the Polars plan and the SQL SELECT hand every window function the reference's rows in the reference's order (compile correctness, all data). Tie: L1 on window/arrange-heavy pipelines with all marker combinations, partitions via partition_by and via group_by.",
                 "Rocq: stable-sort algebra and window reference semantics; differential correspondence", "5 / C05"),
-    "C06": pipe("Theorems: inner join = exactly the matching combinations (left-major), null never equals, cross join = full product, left join keeps every left row, padded columns read null, visible columns = left ++ right; COMPILE CORRECTNESS of inner / cross / LEFT joins on both backends for all data (sql_left_join_is_the_reference: right WHERE goes into ON, valid when the right operand has no computed column - left_join_computed_right_refuted is the machine-checked counterexample otherwise, i.e. finding F37; polars_left_join_is_the_reference: unconditional; sql_inner_join_is_the_reference: FROM l JOIN r ON <condition with both operands' definitions inlined>, right WHERE appended; operands any plain SELECT..FROM..WHERE pipelines of the flat fragment incl. unions and earlier joins; rests on ref_keys - reference rows carry only the uids their pipeline mentions - and compile_base - a compiled query reads only its own FROM columns) and on Polars (polars_inner_join_is_the_reference: the three passes of rename_overwritten_cols resolving collisions among hidden columns, name_in_df.update, the row pairs satisfying the condition; the proof shows that after the passes no column name occurs in both frames). Tie: L3 on every inner-join case (SQL: Query record incl. the merged WHERE list, labels, scope vs the real compile_ast; Polars: select, name_in_df - which columns carry a suffixed name -, schema) + L1 on join-heavy pipelines (equalities, conjunctions, inequalities, cross; duplicate/null keys; empty sides; suffix configurations observed through the real Rename node).",
+    "C06": pipe("Theorems: inner join = exactly the matching combinations (left-major), null never equals, cross join = full product, left join keeps every left row, padded columns read null, visible columns = left ++ right; COMPILE CORRECTNESS of inner / cross / LEFT / FULL joins on both backends for all data (sql_left_join_is_the_reference: right WHERE goes into ON, valid when the right operand has no computed column - left_join_computed_right_refuted is the machine-checked counterexample otherwise, i.e. finding F37; polars_left_join_is_the_reference: unconditional; sql_inner_join_is_the_reference: FROM l JOIN r ON <condition with both operands' definitions inlined>, right WHERE appended; operands any plain SELECT..FROM..WHERE pipelines of the flat fragment incl. unions and earlier joins; rests on ref_keys - reference rows carry only the uids their pipeline mentions - and compile_base - a compiled query reads only its own FROM columns) and on Polars (polars_inner_join_is_the_reference: the three passes of rename_overwritten_cols resolving collisions among hidden columns, name_in_df.update, the row pairs satisfying the condition; the proof shows that after the passes no column name occurs in both frames). Tie: L3 on every inner-join case (SQL: Query record incl. the merged WHERE list, labels, scope vs the real compile_ast; Polars: select, name_in_df - which columns carry a suffixed name -, schema) + L1 on join-heavy pipelines (equalities, conjunctions, inequalities, cross; duplicate/null keys; empty sides; suffix configurations observed through the real Rename node).",
                 "Rocq: join laws on the reference semantics; differential correspondence", "5 / C06"),
     "C07": pipe("Theorems: union all keeps every row under the left header, rows are matched by column name, distinct leaves no duplicate visible row (nulls equal); COMPILE CORRECTNESS of union on both backends, all data: sql_union_is_the_reference (transcription of the Union branch of SqlImpl.compile_ast: operands compiled to complete SELECTs, right select list reordered by column name, compound as FROM of a fresh query) and polars_union_is_the_reference (frames projected on the left names - right columns picked by name -, stacked, deduplicated, hidden columns dropped), operands being any pipelines of the flat fragments. Tie: L3 on every union case (SQL: Query record, labels, scope and the operands' select lists as column identities vs the real compile_query calls; Polars: select, name_in_df, schema) + L1 on union pipelines with permuted column orders, hidden columns, duplicates, empty sides, chained unions.",
                 "Rocq: union laws on the reference semantics; differential correspondence", "5 / C07"),
